@@ -154,3 +154,11 @@ def c_dissidx(ctx, it, cfg):
               implies(and_(j >= 0, j <= minIndex, gt(cum.get(j), frac)), eq(r, minIndex)), inst=[j, r])
     frame(ctx, 'self', o, pre, modifies=[])
     ctx.prove('canary/always-minIndex', eq(r, minIndex), expect='refuted')
+
+
+# ---------------------------------------------------------------------------------------------------
+# BOUNDED stand-in (labelled; never counted as proved): the step-limit contract on objects reached from the real constructor by every
+# sequence of <= 2 (quick) / <= 3 (thorough) public grid operations.  The deductive contracts above start from the class-invariant schema;
+# a field the schema does not know (a cached width, say) makes them undecided, this stand-in still sees the value the real code gave it.
+REG.contract('bounded-history/getDTEuler', [T + 'getDTEuler', T + '__init__', T + 'reset', T + 'createBackup', T + 'revert', T + 'changeSizeClasses', T + 'addSizeClasses', T + 'UpdatePBMEuler'],
+             configs=history_configs(2, 3), bounded='operation sequences of length <= 2 (quick) / <= 3 (thorough) from the real constructor; arguments symbolic')(with_history(c_getdt))
